@@ -201,6 +201,13 @@ theorem main_cases (fs : Bytes → Option Bytes) (main : Bytes) :
   · rw [hr]; exact .inr (.inr (.inl rfl))
   · rw [hr]; exact .inr (.inr (.inr rfl))
 
+/-- C18.F6 / C06 `main_no_crash`  The executable as a whole — assembler, checksum insertion, page padding, UF2 writer and
+its `Drop` — never panics and never diverges in its task loop, whatever the project: `trias` ends by writing the file,
+by refusing, or (outside the model) for a missing source file / an include nesting deeper than 64 (K2). -/
+theorem main_no_crash (fs : Bytes → Option Bytes) (main : Bytes) :
+    mainOut fs main ≠ .aborted .panic ∧ mainOut fs main ≠ .aborted .loop := by
+  rcases main_cases fs main with ⟨f, h⟩ | ⟨r, h⟩ | h | h <;> rw [h] <;> exact ⟨by simp, by simp⟩
+
 /-! ### non-vacuity -/
 
 /-- `NOP;` before any `.addr` is a failing program: nothing is written, an existing file keeps its bytes -/
